@@ -175,3 +175,48 @@ def from_dict_outcome(version, class_name, src, config=None):
         return repr(cls.from_dict(src))
     except BaseException as e:  # noqa
         return f"raised {type(e).__name__}: {e}"
+
+
+def capture_violation(name):
+    """None if a model with a property spelled `name` and an operation with a query parameter spelled `name` behave like
+    their neutrally named twins (C18); else a description.  Native run of the real generator + generated code."""
+    from . import fragments
+    comps = {"M": {"type": "object", "required": [name], "properties": {name: {"type": "string", "format": "date"}, "zz-other": {"type": "integer"}}},
+             "O": {"type": "object", "properties": {name: {"type": "integer"}, "zz-other": {"type": "string", "format": "date"}}},
+             "CapBody": {"type": "object", "properties": {"k": {"type": "integer"}}}}
+    paths = {"/q": {"post": {"operationId": "capq", "tags": ["b"],
+                             "parameters": [{"name": name, "in": "query", "schema": {"type": "string"}},
+                                            {"name": name, "in": "header", "schema": {"type": "string"}}],
+                             "requestBody": {"content": {"application/json": {"schema": {"$ref": "#/components/schemas/CapBody"}}}},
+                             "responses": {"200": {"description": ""}}}}}
+    doc = {"openapi": "3.0.3", "info": {"title": "cap", "version": "1"}, "paths": paths, "components": {"schemas": comps}}
+    pkg = fragments.generate_package(doc)
+    try:
+        try:
+            M = pkg.module("models.m").M
+            O = pkg.module("models.o").O
+        except BaseException as e:  # noqa
+            return None if pkg.errors else f"models do not import: {type(e).__name__}: {e}"
+        for cls, src in ((M, {name: "2020-01-02", "zz-other": 3}), (M, {name: "2020-01-02", "extra": 1}), (O, {name: 5, "zz-other": "2020-01-02"}), (O, {})):
+            try:
+                out = cls.from_dict(dict(src)).to_dict()
+            except BaseException as e:  # noqa
+                return f"{cls.__name__}.from_dict({src!r}).to_dict() raised {type(e).__name__}: {e}"
+            if out != src:
+                return f"{cls.__name__}: {src!r} re-encodes as {out!r}"
+        try:
+            mod = pkg.module("api.b.capq")
+        except BaseException as e:  # noqa
+            return None if pkg.errors else f"endpoint module does not import: {type(e).__name__}: {e}"
+        import inspect
+        body = pkg.module("models.cap_body").CapBody.from_dict({"k": 1})
+        params = [p for p in inspect.signature(mod._get_kwargs).parameters if p != "body"]
+        try:
+            kw = mod._get_kwargs(body=body, **{params[0]: "QV", params[1]: "HV"})
+        except BaseException as e:  # noqa
+            return f"_get_kwargs raised {type(e).__name__}: {e}"
+        want = {"method": "post", "url": "/q", "params": {name: "QV"}, "json": {"k": 1},
+                "headers": {name: "HV", "Content-Type": "application/json"}}
+        return None if kw == want else f"_get_kwargs returned {kw!r}, documented request is {want!r}"
+    finally:
+        pkg.cleanup()
